@@ -102,7 +102,7 @@ def main():
                 events.append(ev)
                 continue
             if r < 0.32:
-                if kind == 'commit' or rng.random() < 0.8:
+                if kind == 'commit' or rng.random() < 1.0 - job.get('pcut_abort', 0.2):
                     ev['op'] = 'commit'
                     w = jar.commit()
                     ev['nwritten'] = len(w)
